@@ -697,6 +697,12 @@ public:
       std::unique_ptr<T_CopyAndVerifyRangeEl[]> target =
         copy_and_verify_range_helper(str_len);
 
+      // for a tainted_volatile the pointer is fetched again by the helper and
+      // the sandbox may have changed it to null in the meantime
+      if (target == nullptr) {
+        return verifier(nullptr);
+      }
+
       // ensure the string has a trailing null
       target[str_len - 1] = '\0';
 
